@@ -166,10 +166,10 @@ func genForms(c *core.Check, emit func(Program) bool) {
 		// expression statements that begin with a parenthesis for a reason
 		"(class{}).x=5;return 1", "(class{static m(){h1(1)}}).m()", "(class{}),h1(2)", "(class A{static p=h1(1)});return typeof A", "(function(){}).x=5;return 2", "(function(){h1(1)})()", "(function(){h1(1)}).call()", "(function f(){}).name;return typeof f", "({}).x=5;return 3", "({p(){h1(2)}}).p()", "({p:h1(1)}).p", "({}),h1(1)", "({a}=({a:b}));return a",
 		"(async function(){h1(1)})()", "(async()=>{h1(1)})()", "(function*(){h1(1)})().next()", "(let[0]=1)", "!function(){h1(1)}()", "+function(){h1(1)}()", "void function(){h1(1)}()", "new function(){h1(1)}", "new (class{constructor(){h1(1)}})", "new class{constructor(){h1(1)}}", "(()=>{h1(1)})()", "(a=>h1(a))(b)", "(a,b)=>1;return 1", "(a)=>1;return 1",
-		"return (class{}).name", "return (function(){}).name", "return (class{})?.name", "return (function(){})?.x", "return (class{static x=1}).x++", "return typeof (class{})", "return (class{})+''", "return (function(){return 1})()+1", "return (function(){return 1}())", "return (function(){return this}).call(a)", "return (()=>1)()", "return (()=>({}))().x", "return (a=>a)`x`", "return ({}).toString()", "return {}.toString()", "return ({}+1)", "return ({})[a]", "return ({}.x)",
-		// parameters whose default, pattern or rest has an effect of its own
+		"return (function(){})?.x", "return (class{static x=1}).x++", "return typeof (class{})", "return (class{})+''", "return (function(){return 1})()+1", "return (function(){return 1}())", "return (function(){return this}).call(a)", "return (()=>1)()", "return (()=>({}))().x", "return (a=>a)`x`", "return ({}).toString()", "return {}.toString()", "return ({}+1)", "return ({})[a]", "return ({}.x)",
+		// parameters whose default, pattern or rest has an effect of its own (.length and .name of functions are outside the observation)
 		"function f(x,y=h1(1)){return x}return f(a)", "var f=(x,y=h1(1))=>x;return f(a)", "function f(x,{p=h1(2)}={}){return x}return f(a)", "function f(x,[y=h1(3)]=[]){return x}return f(a)", "var {p=h1(4)}={};return 1", "var [y=h1(5)]=[];return 1", "function f(x,y=x.p){return 1}return f(a)", "function f(x,{p}){return 1}return f(a,b)", "function f(x,[y]){return 1}return f(a,b)", "function f(x,y=(x=5)){return x}return f(a)", "function f(x,...[y=h1(6)]){return x}return f(a)",
-		"function f(x,y=h1(1),z){return x}return f(a)", "function f(x,y=h1(1)){return arguments.length}return [f(a),f.length]", "function f(x,y,z){return 1}return f.length", "function f(x,y=1){return 1}return f.length", "function f(x,...r){return 1}return f.length", "var o={m(x,y=h1(1)){return x}};return o.m(a)", "class A{m(x,y=h1(1)){return x}}return new A().m(a)", "class A{constructor(x,y=h1(1)){}}new A;return A.length", "var f=function(x,y=h1(1)){};return f()", "var f=async(x,y=h1(1))=>x;f();return 1", "function*g(x,y=h1(1)){}g();return 1",
+		"function f(x,y=h1(1),z){return x}return f(a)", "function f(x,y=h1(1)){return arguments.length}return [f(a)]", "var o={m(x,y=h1(1)){return x}};return o.m(a)", "class A{m(x,y=h1(1)){return x}}return new A().m(a)", "class A{constructor(x,y=h1(1)){}}new A;return 1", "var f=function(x,y=h1(1)){};return f()", "var f=async(x,y=h1(1))=>x;f();return 1", "function*g(x,y=h1(1)){}g();return 1",
 		"var {p}=a;return 1", "var [q]=b;return 1", "var {p:{q}}=a;return 1", "var {}=a;return 1", "var []=a;return 1", "var {...r}=a;return 1", "var [...s]=a;return 1", "let {p}=a;return 1", "const [q]=b;return 1", "for(var {p} of [a]);return 1", "for(var [q] of [b]);return 1", "try{var {p}=a}catch(e){return 2}return 1", "({p:b}=a);return 1", "[b]=a;return 1", "(function({p}){})(a);return 1", "(({p})=>1)(a);return 1",
 		// optional chains end at the parentheses
 		"return (a?.b)()", "return (a?.b.c).d", "(a?.p).q=1;return a", "return new (a?.b)()", "return (a?.b)?.c", "return (a?.b)`t`", "return (a?.[b])()", "return (a?.())()", "return (a?.b)[b]", "return delete (a?.b).c", "return (a?.p.q).r", "return (a?.p)(b)", "return (a?.p).call(b)", "return a?.b()", "return a?.b.c.d", "return a?.p.q", "return (a?.p)?.q.r", "return (a?.p ?? b).q", "return ((a?.p)).q", "return (a?.p,b).q", "return (b,a?.p).q",
